@@ -3,6 +3,7 @@
 package submission
 
 import (
+	"context"
 	"crypto/sha256"
 	"encoding/hex"
 
@@ -12,13 +13,19 @@ import (
 
 // simYield parks the calling group-race goroutine in the simulator (if one is
 // installed) right before it touches the shared submission state. The leaf
-// certificate's hash tells concurrent GetSCTs calls apart.
-func simYield(point, group, logURL string, chain []ct.ASN1Cert) {
+// certificate's hash tells concurrent GetSCTs calls apart, unless the
+// simulator names the caller through the context (two calls may carry one leaf).
+func simYield(ctx context.Context, point, group, logURL string, chain []ct.ASN1Cert) {
 	if f := verifhook.Yield; f != nil {
 		id := ""
 		if len(chain) > 0 {
 			h := sha256.Sum256(chain[0].Data)
 			id = hex.EncodeToString(h[:4])
+		}
+		if c := verifhook.CallerID; c != nil {
+			if who := c(ctx); who != "" {
+				id = who
+			}
 		}
 		f(point, group, logURL, id)
 	}
